@@ -341,6 +341,15 @@ class Worker:
 
 def worker_main(args):
     t0 = time.time()
+    cov = None
+    if os.environ.get("VERIF_COVERAGE_DIR"):
+        # optional, for tools/coverage_report.sh only: which numpoly lines do the generated cases execute?
+        import coverage
+        cov = coverage.Coverage(data_file=os.path.join(os.environ["VERIF_COVERAGE_DIR"], ".coverage"), data_suffix=True,
+                                source=[os.path.join(REPO, "numpoly")])
+        cov.start()
+        import atexit
+        atexit.register(lambda: (cov.stop(), cov.save()))
     w = Worker(args.property, args.tier, args.seed, args.shard, args.nshards,
                tag=os.path.basename(args.out)[:-5])
     known = load_known().get(args.property, {})
